@@ -85,18 +85,34 @@ fn random_mat4(rng: &mut Rng) -> Matrix4<f32> {
         m[(3, 3)] = *rng.pick(&[0.5f32, 0.75, 2.0]);
     }
     // rotation about a random axis + non-uniform scale + translation
-    let axis = nalgebra::Unit::new_normalize(nalgebra::Vector3::new(
-        rng.uniform(-1.0, 1.0) as f32,
-        rng.uniform(-1.0, 1.0) as f32,
-        rng.uniform(-1.0, 1.0) as f32 + 1e-3,
-    ));
-    let rot = nalgebra::Rotation3::from_axis_angle(&axis, rng.uniform(-0.8, 0.8) as f32);
-    let s = [rng.uniform(0.6, 1.6) as f32, rng.uniform(0.6, 1.6) as f32, rng.uniform(0.6, 1.6) as f32];
+    // (30%: exactly about one coordinate axis, 15%: no rotation at all -
+    // matrices with zeros / antisymmetric pairs in the linear part)
+    let axis = if rng.chance(0.3) {
+        let mut a = nalgebra::Vector3::zeros();
+        a[rng.below(3)] = if rng.chance(0.5) { 1.0 } else { -1.0 };
+        nalgebra::Unit::new_normalize(a)
+    } else {
+        nalgebra::Unit::new_normalize(nalgebra::Vector3::new(
+            rng.uniform(-1.0, 1.0) as f32,
+            rng.uniform(-1.0, 1.0) as f32,
+            rng.uniform(-1.0, 1.0) as f32 + 1e-3,
+        ))
+    };
+    let angle = if rng.chance(0.15) { 0.0 } else { rng.uniform(-0.8, 0.8) as f32 };
+    let rot = nalgebra::Rotation3::from_axis_angle(&axis, angle);
+    let mut s = [rng.uniform(0.6, 1.6) as f32, rng.uniform(0.6, 1.6) as f32, rng.uniform(0.6, 1.6) as f32];
+    if rng.chance(0.2) {
+        s = [s[0]; 3]; // uniform scale
+    }
+    if rng.chance(0.1) {
+        s[rng.below(2)] *= -1.0; // mirrored in x or y
+    }
+    let no_translation = rng.chance(0.2);
     for i in 0..3 {
         for j in 0..3 {
             m[(i, j)] = rot[(i, j)] * s[j];
         }
-        m[(i, 3)] = rng.uniform(-0.3, 0.3) as f32;
+        m[(i, 3)] = if no_translation { 0.0 } else { rng.uniform(-0.3, 0.3) as f32 };
     }
     m
 }
